@@ -61,10 +61,25 @@ func daYunChain(c *Ctx, r *Report, rule string) {
 		return leaf
 	}
 	// what the walk stores into the period fields, grouped by the period index stored with them
+	slots := map[int64]int{} // position in the list built -> number of the object stored there (from 1)
 	watch := func(ev *evaluator) *[]map[string]interface{} {
 		var objs []map[string]interface{}
 		byBase := map[string]int{}
+		for k := range slots {
+			delete(slots, k)
+		}
 		ev.onStore = func(fr *evalFrame, st *ssa.Store, v interface{}, ok bool) {
+			if ia, isIA := st.Addr.(*ssa.IndexAddr); isIA && structName(st.Val.Type()) == "DaYun" {
+				// an element of the list: which object goes where
+				if kv, okK := ev.eval(fr, ia.Index, 0); okK {
+					if k, isI := kv.(int64); isI {
+						// the object whose construction the walk has just passed (the value stored was followed before
+						// this store was reported)
+						slots[k] = len(objs)
+					}
+				}
+				return
+			}
 			fa, isF := st.Addr.(*ssa.FieldAddr)
 			if !isF || structName(fa.X.Type()) != "DaYun" {
 				return
@@ -137,9 +152,15 @@ func daYunChain(c *Ctx, r *Report, rule string) {
 		case len(*objs) != count:
 			bad = append(bad, fmt.Sprintf("%d periods built, %d asked for", len(*objs), count))
 		default:
-			for i, obj := range *objs {
-				if d := compare(obj, int64(i)); d != "" {
-					bad = append(bad, fmt.Sprintf("period %d (birth year %d, lunar year of birth %d, fortunes start in %d): %s", i, B, L, Y, d))
+			// whatever order they are built in: position k of the list holds the period with index k
+			for k := int64(0); k < count; k++ {
+				n := slots[k]
+				if n < 1 || n > len(*objs) {
+					bad = append(bad, fmt.Sprintf("position %d of the list is not filled with a period built here", k))
+					continue
+				}
+				if d := compare((*objs)[n-1], k); d != "" {
+					bad = append(bad, fmt.Sprintf("position %d (birth year %d, lunar year of birth %d, fortunes start in %d): %s", k, B, L, Y, d))
 				}
 			}
 		}
@@ -149,7 +170,7 @@ func daYunChain(c *Ctx, r *Report, rule string) {
 
 func r12_8(c *Ctx, r *Report) {
 	const rule = "R12.8"
-	r.rule(rule, "The annual and minor fortunes listed for a period cover it. DaYun.GetLiuNianBy(n) and GetXiaoYunBy(n) are followed by the evaluator (their loops as tables over the iteration number; the period's index, start and end year abstract inputs; the constructors of the entries are not entered) for the period before the first great fortune with spans of 1 to 12 years and for later periods, with n = 1, 10 and 12: the entries built are those with index 0, 1, .. in order, each for the period itself — as many as the span (end year − start year + 1) for the period before the first fortune, whatever n, and n for a later period. A list shorter than the span leaves years between the birth and the first great fortune without annual fortune.")
+	r.rule(rule, "The annual and minor fortunes listed for a period cover it. DaYun.GetLiuNianBy(n) and GetXiaoYunBy(n) are followed by the evaluator (their loops as tables over the iteration number; the period's index, start and end year abstract inputs; the constructors of the entries are not entered) for the period before the first great fortune with spans of 1 to 12 years and for later periods, with n = 1, 10 and 12: the list built holds at position k the entry with index k (whatever order they are built in), each for the period itself — as many as the span (end year − start year + 1) for the period before the first fortune, whatever n, and n for a later period. A list shorter than the span leaves years between the birth and the first great fortune without annual fortune.")
 	for _, u := range []struct{ fn, ctor string }{{"calendar.(*DaYun).GetLiuNianBy", "calendar.NewLiuNian"}, {"calendar.(*DaYun).GetXiaoYunBy", "calendar.NewXiaoYun"}} {
 		fn := c.Fn(r, rule, u.fn)
 		if fn == nil || len(fn.Params) != 2 {
@@ -190,7 +211,15 @@ func r12_8(c *Ctx, r *Report) {
 						if call, ok := v.(*ssa.Call); ok && call.Common().StaticCallee() != nil {
 							switch fname(call.Common().StaticCallee()) {
 							case u.ctor:
-								return absPtr{"entry", false}, true
+								// the entry for the index it is given, of the period it is given
+								if len(call.Common().Args) >= 2 {
+									o, ok1 := evalWith(fr, call.Common().Args[0], leaf)
+									i, ok2 := evalWith(fr, call.Common().Args[1], leaf)
+									if ok1 && ok2 && o == interface{}(absPtr{"period", false}) {
+										return absPtr{fmt.Sprintf("entry %v", i), false}, true
+									}
+								}
+								return absPtr{"entry ?", false}, true
 							case "calendar.(*Yun).IsForward":
 								return true, true
 							}
@@ -198,19 +227,30 @@ func r12_8(c *Ctx, r *Report) {
 						return nil, false
 					}
 					ev := &evaluator{leaf: leaf, inline: inlineLibrary, counted: 64, effectsOnly: true}
-					var built []string
-					ev.visit = func(fr *evalFrame, call *ssa.Call) {
-						if callee := call.Common().StaticCallee(); callee != nil && fname(callee) == u.ctor && len(call.Common().Args) >= 2 {
-							o, ok1 := ev.eval(fr, call.Common().Args[0], 0)
-							i, ok2 := ev.eval(fr, call.Common().Args[1], 0)
-							if ok1 && ok2 && o == interface{}(absPtr{"period", false}) {
-								built = append(built, fmt.Sprint(i))
-							} else {
-								built = append(built, "?")
+					// which entry goes to which position of the list, whatever order they are built in
+					placed := map[int64]string{}
+					ev.onStore = func(fr *evalFrame, st *ssa.Store, v interface{}, ok bool) {
+						if ia, isIA := st.Addr.(*ssa.IndexAddr); isIA {
+							if kv, okK := ev.eval(fr, ia.Index, 0); okK {
+								if k, isI := kv.(int64); isI {
+									if p, isP := v.(absPtr); ok && isP && strings.HasPrefix(p.tag, "entry ") {
+										placed[k] = strings.TrimPrefix(p.tag, "entry ")
+									} else {
+										placed[k] = "?"
+									}
+								}
 							}
 						}
 					}
 					_, outcome := ev.run(fn, nil, nil, nil, nil)
+					var built []string
+					for k := int64(0); k < int64(len(placed)); k++ {
+						if e, has := placed[k]; has {
+							built = append(built, e)
+						} else {
+							built = append(built, "-")
+						}
+					}
 					cases++
 					count := n
 					if index < 1 {
